@@ -22,6 +22,9 @@ def run(ctx):
     gb = life.gen(ctx, gen, 3 if q else 4, "all histories over generic instantiations incl. kept handles")
     gb += life.sim(ctx, dict(gen, B='{"b1", "b2"}', T='{"f", "g", "h"}', CB='{"c1", "c2"}'), 100 if q else 2000, 12, "random histories over generic instantiations")
     life.replay(ctx, "life-generic", gb)
+    # function LITERALS as targets (symbols pkg.glob..funcN): only the literal's own entry may change, never a function it calls
+    lb = life.gen(ctx, dict(one, Ops="<- ImageHeldOps"), 2 if q else 3, "image alphabet over function literals incl. kept handles")
+    life.replay(ctx, "life-literal", lb)
     # one builder holding a function mock, a variable mock and an interface mock at once (Mix.tla)
     mb = ctx.behaviours(ctx.tlc("Mix", "Gen_Mix.cfg", workers=1, timeout=900, constants={"MaxOps": 4}, tag="mixed builder: all histories"))
     mb = [b for b in mb if len({s.get("fam") for s in b} - {"all", None}) >= 2 and any(s["op"] == "Reset" for s in b)]
